@@ -1146,9 +1146,14 @@ func (ctx *internalContext) Watch(options WatchOptions) error {
 func (ctx *internalContext) Cancel() {
 	ctx.mutex.Lock()
 
-	// Ignore disposed contexts
+	// Ignore disposed contexts, but don't return while a build is still
+	// running (a concurrent call to "Dispose" may still be waiting for it)
 	if ctx.didDispose {
+		build := ctx.activeBuild
 		ctx.mutex.Unlock()
+		if build != nil {
+			build.waitGroup.Wait()
+		}
 		return
 	}
 
@@ -1165,10 +1170,15 @@ func (ctx *internalContext) Cancel() {
 }
 
 func (ctx *internalContext) Dispose() {
-	// Only dispose once
+	// Only dispose once, but don't return while a build is still running
+	// (a concurrent call to "Dispose" may still be waiting for it)
 	ctx.mutex.Lock()
 	if ctx.didDispose {
+		build := ctx.activeBuild
 		ctx.mutex.Unlock()
+		if build != nil {
+			build.waitGroup.Wait()
+		}
 		return
 	}
 	ctx.didDispose = true
